@@ -580,6 +580,12 @@ def run(rep, ctx):
     rep.rule("R13.5", "the distance record of the clusters is computed in the same get_clusters call with the same radii (nothing carried between calls)")
     with rep.guard("R13.5"):
         r13_5(rep, M, "R13.5")
+    rep.rule("R13.6", "the geometry helpers both evaluations rest on (get_dimensionality, get_radii, get_distances, displacement-tensor wrapper, clustering) satisfy their own rules (shared with C09/C10/C19)")
+    with rep.guard("R13.6"):
+        from . import shared as _sh
+        _sh.dimensionality(rep, ctx.model, "R13.6")
+        _sh.radii(rep, ctx.model, "R13.6")
+        _sh.distances(rep, ctx.model, "R13.6")
     rep.floor("R13.1", 1)
     rep.floor("R13.3", 2)
 
